@@ -220,7 +220,7 @@ class EventHandler:
         """
         self._prepare_emit()
         results = []
-        for _, callback, _, extra_kwargs in self.listeners:
+        for _, callback, _, extra_kwargs in list(self.listeners):  # copy: a callback may (dis)connect listeners
             res = callback(*args, **kwargs, **extra_kwargs)
             results.append(res)
         return results
@@ -228,7 +228,7 @@ class EventHandler:
     def emit_until_result(self, *args, **kwargs):
         """Call the listeners `callback` until one returns not `None`."""
         self._prepare_emit()
-        for _, callback, _, extra_kwargs in self.listeners:
+        for _, callback, _, extra_kwargs in list(self.listeners):  # copy: a callback may (dis)connect listeners
             res = callback(*args, **kwargs, **extra_kwargs)
             if res is not None:
                 return res
